@@ -83,6 +83,18 @@ impl Rig {
         }
     }
 
+    /// any script, with `v` preset; what the capture command received on its first invocation
+    fn run_text(&self, script: &str, v: &str) -> Result<Option<Vec<String>>, String> {
+        self.got.borrow_mut().clear();
+        let mut ctx = self.ctx.clone();
+        ctx.variables.insert("v".into(), v.to_string());
+        let (env, _o, _e, _h) = quiet_env();
+        match runner::run_script(script, ctx, Some(env)) {
+            Ok(_) => Ok(self.got.borrow().first().cloned()),
+            Err(e) => Err(e.to_string()),
+        }
+    }
+
     /// what the capture command received on its first invocation (None: it was not invoked)
     fn run(&self, wrapper: usize, pos: usize, place: usize, v: &str, halt: Option<std::sync::Arc<WatchSlot>>) -> Result<Option<Vec<String>>, String> {
         self.got.borrow_mut().clear();
@@ -183,11 +195,73 @@ pub fn bounds(tier: Tier) -> Value {
     }
 }
 
+
+/// Many arguments and long values through every wrapper: hundreds of arguments, the first and the
+/// last being a value of thousands of characters full of the characters a wrapper must not touch.
+fn scale(w: &mut Worker, rig: &Rig) {
+    let sizes: Vec<(usize, usize)> = w.tier.pick(vec![(300, 5_000)], vec![(300, 5_000), (3000, 100_000)]);
+    for (nargs, vlen) in sizes {
+        let unit = "a b ${v} %{w} \\ # \" = \t";
+        let mut v = String::new();
+        while v.len() < vlen {
+            v.push_str(unit);
+        }
+        let mut written: Vec<String> = vec!["${v}".to_string()];
+        let mut expected: Vec<String> = vec![v.clone()];
+        for i in 0..nargs {
+            written.push(format!("a{}", i));
+            expected.push(format!("a{}", i));
+        }
+        written.push("${v}".to_string());
+        expected.push(v.clone());
+        let with = |head: &[&str]| -> String {
+            let mut a: Vec<&str> = head[1..].to_vec();
+            a.extend(written.iter().map(|s| s.as_str()));
+            crate::render::line(None, head[0], &a)
+        };
+        let scripts: Vec<(&str, String)> = vec![
+            ("direct", with(&["cap"])),
+            ("if", format!("{}\nend", with(&["if", "cap"]))),
+            ("elseif", format!("if false\n{}\nend", with(&["elseif", "cap"]))),
+            ("while", format!("{}\nend", with(&["while", "cap"]))),
+            ("not", with(&["not", "cap"])),
+            ("alias-passed", format!("alias al cap\n{}", with(&["al"]))),
+            ("alias-of-not", format!("alias al not cap\n{}", with(&["al"]))),
+            ("function", format!("fn p\ncap ${{1}} ${{2}} ${{{}}}\nreturn true\nend\n{}\nend", nargs + 2, with(&["if", "p"]))),
+        ];
+        for (wrapper, script) in scripts {
+            if !w.take() {
+                continue;
+            }
+            let cj = json!({"kind": "scale", "wrapper": wrapper, "arguments": nargs + 2, "value_length": v.len(), "script": script, "value": v});
+            w.begin(|| cj.clone());
+            w.add_transitions(1);
+            let exp: Vec<String> = if wrapper == "function" { vec![v.clone(), "a0".to_string(), v.clone()] } else { expected.clone() };
+            match guarded(|| rig.run_text(&script, &v)) {
+                Err(p) => w.fail("scale:panic", &format!("{}: panic {}", wrapper, p), cj),
+                Ok(Err(e)) => w.fail(&format!("scale:run-failed:{}", wrapper), &format!("{} with {} arguments: {}", wrapper, nargs + 2, e), cj),
+                Ok(Ok(got)) => {
+                    if got.as_ref() == Some(&exp) {
+                        w.pass(true, hash64(&("scale", wrapper)));
+                    } else {
+                        let (gl, first_diff) = match &got {
+                            None => (0, "the command was not invoked".to_string()),
+                            Some(g) => (g.len(), g.iter().zip(exp.iter()).position(|(a, b)| a != b).map(|i| format!("argument {} differs", i)).unwrap_or_else(|| "the lists differ in length".into())),
+                        };
+                        w.fail(&format!("scale:arguments-differ:{}", wrapper), &format!("{}: received {} arguments, expected {}; {}", wrapper, gl, exp.len(), first_diff), cj);
+                    }
+                }
+            }
+        }
+    }
+}
+
 pub fn worker(w: &mut Worker) {
     let tier = w.tier;
     w.risky = true;
     w.set_case_limit_ms(5_000);
     let rig = Rig::new();
+    scale(w, &rig);
     let vl = tier.pick(3usize, 4usize);
     let mut values: Vec<String> = Strings::new(&SIGMA[..], 0, vl).map(|v| v.concat()).collect();
     for s in SPECIAL {
@@ -240,6 +314,14 @@ pub fn worker(w: &mut Worker) {
 }
 
 pub fn replay(case: &Value) -> Result<String, String> {
+    if case["kind"].as_str() == Some("scale") {
+        let rig = Rig::new();
+        let got = rig.run_text(case["script"].as_str().unwrap_or(""), case["value"].as_str().unwrap_or(""));
+        return Ok(match got {
+            Ok(Some(g)) => format!("received {} arguments; lengths {:?}", g.len(), g.iter().map(|a| a.len()).take(6).collect::<Vec<_>>()),
+            other => format!("{:?}", other),
+        });
+    }
     let rig = Rig::new();
     let v = case["value"].as_str().ok_or("value")?;
     let pos = case["position"].as_u64().unwrap_or(0) as usize;
@@ -258,7 +340,7 @@ pub fn crash_sig(case: &Value, kind: &str) -> String {
     format!("{}:{}:{}", kind, case["wrapper"].as_str().unwrap_or("?"), class_of(case["value"].as_str().unwrap_or("")))
 }
 
-pub const RULE: &str = "values: every string up to the length bound over {a SP \" # \\\\ $ { } % LF CR = TAB e-acute} plus 8 special values (${v}, %{v}, \\\\${v}, ${w}, 'a b', '\"a b\"', 'a  b', x=y), held in a variable and written as ${v} in first or second argument position of a capture command invoked directly, as the condition of if / elseif / while, under not, through an alias that stores the value, through an alias that is passed the value, through a user function used as predicate, through aliases whose target is `not <predicate>` (value passed or stored), and through an alias that stores the value and whose name a second alias definition then tries to take (refused); every wrapping line both at the top level of the script and inside the body of a user function that was itself called with two arguments. Oracle: the arguments received through the wrapper equal those received by the direct call. A failing case is classified by whether the received arguments equal what re-serialising the values into a line and parsing/binding it again yields (the recorded defect, one signature per input class) or not (a new violation). Non-trivial: the value contains a character other than plain letters";
+pub const RULE: &str = "values: every string up to the length bound over {a SP \" # \\\\ $ { } % LF CR = TAB e-acute} plus 8 special values (${v}, %{v}, \\\\${v}, ${w}, 'a b', '\"a b\"', 'a  b', x=y), held in a variable and written as ${v} in first or second argument position of a capture command invoked directly, as the condition of if / elseif / while, under not, through an alias that stores the value, through an alias that is passed the value, through a user function used as predicate, through aliases whose target is `not <predicate>` (value passed or stored), and through an alias that stores the value and whose name a second alias definition then tries to take (refused); every wrapping line both at the top level of the script and inside the body of a user function that was itself called with two arguments. Scale cases: 302 (thorough 3002) arguments, the first and last a value of 5000 (thorough 100000) characters of such text, through the direct call and seven wrappers. Oracle: the arguments received through the wrapper equal those received by the direct call. A failing case is classified by whether the received arguments equal what re-serialising the values into a line and parsing/binding it again yields (the recorded defect, one signature per input class) or not (a new violation). Non-trivial: the value contains a character other than plain letters";
 pub const ASSUMPTIONS: &[&str] = &["the capture command returns true on its first call and false afterwards (so a while loop ends)", "classification of known findings uses the real parser and binder on a transcription of the line building in utils/eval.rs"];
 pub const EXHAUSTIVE: bool = true;
 pub const WALL_CAP_S: (u64, u64) = (55, 1500);
